@@ -479,7 +479,7 @@ pub fn cases(prop: &str, seed: u64, tier: &str) -> Vec<String> {
                     out.push(format!("P {} {} {}", hex(c.as_bytes()), hex(mm.as_bytes()), hex(b"")));
                 }
             }
-            for _ in 0..b.mappings {
+            for i in 0..b.mappings {
                 let m = gen_mapping(&mut r, &REP);
                 if !representable(m.as_bytes()) {
                     continue;
@@ -494,9 +494,18 @@ pub fn cases(prop: &str, seed: u64, tier: &str) -> Vec<String> {
                     qs = qs.into_iter().step_by(step).collect();
                 }
                 out.extend(qs);
-                // typed remapping (Y) is not compared across releases: the pinned release has the defect F3
-                // (fixed by a9ed7b0), which changes typed answers independently of the file bytes
                 emit_text_queries(&mut out, m.as_bytes(), &mut r, 3, 0, 3);
+                // typed remapping (Y): the pinned release has the defect F3 (a throwable whose class is not in
+                // the mapping is dropped; fixed by a9ed7b0), which changes typed answers in the same way whatever
+                // the file bytes.  The cross-release runner therefore compares typed answers with that one
+                // difference normalised on both sides (xver.rs, typed_modulo_f3); everything that comes from the
+                // file is compared as it is.  Own generator state: the stream of the other cases is unchanged.
+                let mut ry = Rng(seed ^ 0x0c10_7e9d_0000 ^ (i as u64).wrapping_mul(0x9e37_79b9_7f4a_7c15));
+                let u = universe(m.as_bytes());
+                for _ in 0..2 {
+                    let t = crate::trace::gen_canonical_trace(&mut ry, &u);
+                    out.push(format!("Y {}", hex(t.as_bytes())));
+                }
             }
             corpus_queries(&mut out, &mut r, QuerySel { class: true, method: true, lines: true, params: true, all_lines: false, both_files: false }, b.thorough);
         }
